@@ -103,6 +103,12 @@ def base_cases(r, tier):
         spec14.append({"p": "src/objects/alias%d" % k, "k": "hard", "target": "src/objects/blob%d" % k})
         spec14.append({"p": "src/also%d" % k, "k": "hard", "target": "src/objects/blob%d" % k})
     out.append({"name": "hardlinked-sources", "spec": spec14, "pre": [], "bs": "4096", "expect_fail": False, "per": 40 if tier == "quick" else 150})
+    # T14: with backups, a source named like the backup that a sibling's old version is about to receive (a tree that was itself the
+    # destination of earlier --backup runs): refused or not, the outcome may not depend on who gets to the name first
+    spec15 = [{"p": "src", "k": "d"}] + [F("src/" + n, 5000 + 11 * i, 600 + i, mode=0o644) for i, n in enumerate(["NAME", "NAME.~1~", "other", "other.~2~", "zz"])]
+    pre15 = [{"p": "dst", "k": "d"}, {"p": "dst/src", "k": "d"}, F("dst/src/NAME", 70, 610), F("dst/src/other", 80, 611), F("dst/src/other.~1~", 9, 612)]
+    out.append({"name": "backup-named-siblings", "spec": spec15, "pre": pre15, "bs": "4096", "expect_fail": False, "opts": ["--backup", "numbered"], "per": 30 if tier == "quick" else 150})
+    out.append({"name": "backup-named-siblings-auto", "spec": copy.deepcopy(spec15), "pre": copy.deepcopy(pre15), "bs": "4096", "expect_fail": False, "opts": ["--backup", "auto"], "per": 30 if tier == "quick" else 150})
     # T10: the same source named twice under -n: whether a worker has already created the copy when the walker meets the second
     # mention must not decide the exit status
     out.append({"name": "same-source-twice-noclobber", "spec": copy.deepcopy(spec), "pre": [{"p": "dst", "k": "d"}], "bs": "4096", "expect_fail": False, "opts": ["-n"],
